@@ -461,8 +461,11 @@ class DocutilsRenderer(RendererProtocol):
         result = ""
 
         for token in tokens or []:
-            if token.type == "text":
+            if token.type in ("text", "code_inline", "text_special"):
+                # (text_special: backslash escapes and entities, already decoded)
                 result += token.content
+            elif token.type in ("softbreak", "hardbreak"):
+                result += "\n"
             # elif token.type == "image":
             #     result += self.renderInlineAsText(token.children)
             else:
